@@ -284,7 +284,16 @@ func runC11(rc *RunCtx) {
 		hub.mu.Lock()
 		entries = append([]AuditEntry(nil), hub.Entries...)
 		hub.mu.Unlock()
+		enabled := map[string]bool{}
+		if lr, err := h.RootRead("sys/audit"); err == nil && lr != nil {
+			for k := range lr.Data {
+				enabled[strings.TrimSuffix(k, "/")] = true
+			}
+		}
 		for name, d := range hub.Devices {
+			if !enabled[name] {
+				continue // disabled during the run
+			}
 			hm, err := d.GetHash(context.Background(), ctl)
 			if err != nil {
 				continue
@@ -372,6 +381,34 @@ func runC11(rc *RunCtx) {
 			tag := fmt.Sprintf("c%d", i)
 			results[i].kind = kind
 			s.Go(tag, func() { results[i].resp, results[i].err = h.Do(tag, r) })
+		}
+		// devices other than dev0 are disabled (and possibly enabled again, or a
+		// further one is added) while the requests are in flight; dev0 stays, so
+		// at every instant at least one device is registered and every request
+		// must be audited
+		if tp.Pick(2) == 0 {
+			toggles := 1 + tp.Pick(2)
+			rc.Cfg("device_toggles", toggles)
+			for j := 0; j < toggles; j++ {
+				dev := fmt.Sprintf("dev%d", 1+tp.Pick(nDev)) // dev<nDev> does not exist yet: it is added
+				again := tp.Pick(2) == 0
+				tag := fmt.Sprintf("tog%d", j)
+				s.Go(tag, func() {
+					enable := func() {
+						h.Do(tag, Req{Op: logical.UpdateOperation, Path: "sys/audit/" + dev, Token: h.Root, Data: map[string]any{"type": "sim", "options": map[string]any{"name": dev, "hmac_accessor": "true"}}})
+					}
+					if dev == fmt.Sprintf("dev%d", nDev) {
+						enable()
+						s.Probe("device_added_during_requests")
+						return
+					}
+					h.Do(tag, Req{Op: logical.DeleteOperation, Path: "sys/audit/" + dev, Token: h.Root})
+					s.Probe("device_disabled_during_requests")
+					if again {
+						enable()
+					}
+				})
+			}
 		}
 		s.Run()
 		s.SetFaults(0, 0)
